@@ -110,6 +110,15 @@ func viewsSuite() hlib.Suite {
 										input := fmt.Sprintf("result successful=%d failed=%d dropped=%d stat=%s elapsed=%s error#%d failed=%v log=%q", s, f, d, du, el, ei, failed, lp)
 										r.SampleCase(input)
 										vc := v.Result(data)
+										if lp == "" && ei == 0 && total > 0 {
+											// view data is a plain struct: rendering must not fail either when its total is
+											// inconsistent with its counts (zero iterations, non-zero counts)
+											bad := data
+											bad.Iterations = 0
+											if p, pv := hlib.Catch(func() { v.Result(bad).VerifRender(false) }); p {
+												r.Fail("C19/render-panics", "result/zero-total-nonzero-counts", fmt.Sprint(pv), input+" with Iterations=0")
+											}
+										}
 										for _, tty := range []bool{false, true} {
 											r.Eval()
 											var text string
